@@ -25,7 +25,13 @@ type globFlag uint
 
 var typeCbMap = map[string]func(os.FileMode) bool{
 	"dir":     os.FileMode.IsDir,
-	"regular": os.FileMode.IsRegular,
+	"regular": isRegularOrSymlink,
+}
+
+// Symbolic links are considered to be regular files. The mode comes from
+// Lstat, so a symbolic link is never followed.
+func isRegularOrSymlink(m os.FileMode) bool {
+	return m.IsRegular() || m&os.ModeSymlink != 0
 }
 
 const (
